@@ -307,6 +307,51 @@ func runAggLarge(raw json.RawMessage, seed int64) (res Result) {
 			}
 		}
 	}
+	// one FAT group next to two thin ones: one key with c messages (per-key grouping) / one message with c keys (per-message
+	// grouping), c around the multiples of 64 where an implementation may cut its work into batches
+	fat := []int{63, 64, 65, 66, 127, 128, 129, 130, 191, 192, 193, 257}
+	for pick := 0; pick < 3; pick++ {
+		c := fat[(int(seed%12+12)+pick*5)%len(fat)]
+		for _, perKey := range []bool{true, false} {
+			var pks []crypto.PublicKey
+			var msgs [][]byte
+			var hs []hash.Hasher
+			sum := ref.G1Inf
+			last := ref.G1Inf
+			addTriple := func(kname, mname string) {
+				sc := w.Scalar(kname)
+				pks = append(pks, w.SK(sc).PublicKey())
+				msgs = append(msgs, w.Msg(mname).Data)
+				hs = append(hs, w.Hasher("kmac", mname))
+				last = w.HashPoint("kmac", mname).Mul(sc)
+				sum = sum.Add(last)
+			}
+			for j := 0; j < c; j++ {
+				if perKey {
+					addTriple("fatk", fmt.Sprintf("fat-msg-%d", j))
+				} else {
+					addTriple(fmt.Sprintf("fat-key-%d", j), "fatm")
+				}
+			}
+			// thin groups; in the per-key orientation they share messages so that distinct keys < distinct messages holds anyway
+			addTriple("thin1", "thin-msg-1")
+			addTriple("thin2", "thin-msg-2")
+			ok, err := crypto.VerifyBLSSignatureManyMessages(pks, sum.Compress(), msgs, hs)
+			res.Evals++
+			if !ok || err != nil {
+				res.Violations = append(res.Violations, Violation{"C02", "PairingProductDefinition",
+					fmt.Sprintf("one group of %d (one key, many messages: %v) and two single triples: the reference aggregate is rejected (%v, %v) [seed %d]", c, perKey, ok, err, seed)})
+			}
+			for _, wrong := range []ref.G1{sum.Add(w.D()), last, sum.Add(last.Neg())} {
+				ok, err = crypto.VerifyBLSSignatureManyMessages(pks, wrong.Compress(), msgs, hs)
+				res.Evals++
+				if ok || err != nil {
+					res.Violations = append(res.Violations, Violation{"C02", "PairingProductDefinition",
+						fmt.Sprintf("one group of %d (one key, many messages: %v) and two single triples: a string that is not the aggregate is accepted (%v, %v) [seed %d]", c, perKey, ok, err, seed)})
+				}
+			}
+		}
+	}
 	// one message, long key lists (127 .. 513 keys, with repeats): Verify under the sum of the keys
 	m := w.Msg("m1")
 	H := w.HashPoint("kmac", "m1")
